@@ -77,7 +77,7 @@ def gen_form(rng, reg0=False, positive=False, smooth=False, names=None, rmax=20.
   """Random built-in form with in-domain parameters.
   reg0: finite at r = 0 (value only).  positive: strictly positive, moderate, for r in [0, 30]."""
   if positive:
-    c = rng.choice(["constant", "polynomial", "exp_spline"] if strict0 else ["constant", "bornmayer", "polynomial", "exp_spline"])
+    c = rng.choice(["constant", "bornmayer", "polynomial", "exp_spline"])
     if c == "constant":
       return {"k": "form", "name": "constant", "p": [rfloat(rng, 0.5, 3.0)]}
     if c == "bornmayer":
@@ -88,11 +88,8 @@ def gen_form(rng, reg0=False, positive=False, smooth=False, names=None, rmax=20.
   pool = names or ["buck", "bornmayer", "coul", "constant", "exponential", "hbnd", "lj", "morse", "polynomial",
                    "sqrt", "tang_toennies", "zbl", "zero", "exp_spline"]
   if reg0:
-    pool = [n for n in pool if n in ("buck", "bornmayer", "constant", "exponential", "morse", "polynomial", "sqrt", "zero", "exp_spline")]
-    if strict0:
-      # buck(C=0) and bornmayer evaluate 0.0/r**6 and raise at exactly r = 0 (outside C06's r > 0 domain);
-      # through the API nothing shields r = 0, so leave them out there
-      pool = [n for n in pool if n not in ("buck", "bornmayer")]
+    # buck (even with C = 0) evaluates C/r**6 and raises at exactly r = 0, outside C06's r > 0 domain
+    pool = [n for n in pool if n in ("bornmayer", "constant", "exponential", "morse", "polynomial", "sqrt", "zero", "exp_spline")]
   name = rng.choice(pool)
   return {"k": "form", "name": name, "p": gen_form_params(rng, name, reg0, rmax=rmax)}
 
@@ -181,7 +178,7 @@ def gen_formula(rng, params, reg0=False, forms=None, depth=2, tables=None):
     if c < 0.60:
       return ["*", P(), ["call", "pymath.log", [["+", ["*", r, r], N(rfloat(rng, 0.5, 3.0))]]]]
     if c < 0.70:
-      name = rng.choice(["as.bornmayer", "as.morse", "as.polynomial", "as.constant", "as.buck"] if reg0 else
+      name = rng.choice(["as.bornmayer", "as.morse", "as.polynomial", "as.constant"] if reg0 else
                         ["as.bornmayer", "as.morse", "as.polynomial", "as.buck", "as.lj", "as.coul", "as.hbnd", "as.zbl", "as.sqrt", "as.exponential"])
       fp = gen_form_params(rng, name[3:], reg0=True if name == "as.buck" and reg0 else reg0)
       args = [r] + [N(v) for v in fp]
@@ -376,7 +373,7 @@ def gen_spline(rng, route="potable", reg0=False, forms=None, tables=None, kind=N
   else:
     rmin = round(rd + rfloat(rng, 0.3, 0.9, 2), 3)
     ra = round(rmin + rfloat(rng, 0.3, 1.0, 2), 3)
-  sname = rng.choice((["morse", "polynomial"] if route == "api" else ["bornmayer", "morse", "polynomial", "buck"]) if reg0 else SMOOTH_START)
+  sname = rng.choice(["bornmayer", "morse", "polynomial"] if reg0 else SMOOTH_START)
   ename = rng.choice(["buck", "bornmayer", "morse", "polynomial", "lj", "hbnd", "coul", "constant"])
   start = {"k": "form", "name": sname, "p": gen_form_params(rng, sname, reg0)}
   end = {"k": "form", "name": ename, "p": gen_form_params(rng, ename)}
